@@ -501,3 +501,67 @@ def g7_independent_elements(prog: Program, run: Run, rule: str, patterns: Sequen
         run.ok(rule, f"{f.module.rel}:{f.qual}", f"{len(feeds)} element reads, none conditional "
                "on the absence of another field's element", f.loc)
     return n
+
+
+# --------------------------------------------------------------------- G8
+def g8_xsd_boolean(prog: Program, run: Run, rule: str, patterns: Sequence[str]) -> int:
+    """xsd:boolean admits "true", "false", "1" and "0". A parser that compares the text of an
+    element or attribute with only some of these spellings reads the others as the opposite
+    value; the complete conversion is odxstr_to_bool()."""
+    n = 0
+    BOOL = {"true", "false", "1", "0"}
+    for f in funcs_in(prog, patterns):
+        if f.name == "odxstr_to_bool":
+            continue
+        bad = False
+        for x in walk_no_nested(f.node):
+            if not (isinstance(x, ast.Compare) and len(x.ops) == 1):
+                continue
+            consts = None
+            c0 = x.comparators[0]
+            if isinstance(x.ops[0], (ast.Eq, ast.NotEq)):
+                for side in (x.left, c0):
+                    if isinstance(side, ast.Constant) and side.value in ("true", "false"):
+                        consts = {side.value}
+            elif isinstance(x.ops[0], (ast.In, ast.NotIn)) and isinstance(
+                    c0, (ast.Tuple, ast.List, ast.Set)) and c0.elts and all(
+                        isinstance(e, ast.Constant) and isinstance(e.value, str)
+                        for e in c0.elts):
+                vals = {e.value for e in c0.elts}
+                if vals <= BOOL and vals & {"true", "false"}:
+                    consts = vals
+            if consts is None:
+                continue
+            n += 1
+            if consts in ({"true", "1"}, {"false", "0"}, BOOL):
+                run.ok(rule, f"{f.module.rel}:{f.qual}", f"`{ast.unparse(x)}` covers both "
+                       "spellings", f"{f.module.rel}:{x.lineno}")
+            else:
+                bad = True
+                run.violation(rule, f"{f.module.rel}:{f.qual}", "xsd-boolean-spelling",
+                              f"`{ast.unparse(x)}` recognises only {sorted(consts)} of the "
+                              "xsd:boolean spellings true/1/false/0: the other spelling is read "
+                              "as the opposite value (use odxstr_to_bool)",
+                              f"{f.module.rel}:{x.lineno}", ast.unparse(x))
+    # the conversion helper itself
+    h = prog.find_func("odxtools.odxtypes:odxstr_to_bool")
+    if h is not None:
+        n += 1
+        lits = {c.value for c in ast.walk(h.node) if isinstance(c, ast.Constant) and
+                isinstance(c.value, str) and c.value in BOOL}
+        rets = [r.value for r in walk_no_nested(h.node) if isinstance(r, ast.Return) and
+                isinstance(r.value, ast.Compare)]
+        true_set = set()
+        for r in rets:
+            if isinstance(r.ops[0], ast.In) and isinstance(r.comparators[0],
+                                                           (ast.List, ast.Tuple, ast.Set)):
+                true_set = {e.value for e in r.comparators[0].elts
+                            if isinstance(e, ast.Constant)}
+        if lits == BOOL and true_set == {"1", "true"}:
+            run.ok(rule, "odxstr_to_bool", "accepts true/1/false/0 and maps 1/true to True",
+                   h.loc)
+        else:
+            run.violation(rule, "odxstr_to_bool", "xsd-boolean-helper",
+                          f"odxstr_to_bool knows {sorted(lits)} and maps {sorted(true_set)} to "
+                          "True; xsd:boolean is true/1 -> True, false/0 -> False", h.loc)
+    return n
